@@ -77,13 +77,34 @@ def load_cases(names):
     return cases
 
 
+class CaseError(SystemExit):
+    """the case itself is broken (pattern not found, edited module not runnable)"""
+
+
 def apply_edits(src, edits, where):
     for old, new in edits:
         n = src.count(old)
         if n != 1:
-            raise SystemExit(f"{where}: pattern occurs {n} times (need exactly 1): {old[:80]!r}")
+            raise CaseError(f"{where}: pattern occurs {n} times (need exactly 1): {old[:80]!r}")
         src = src.replace(old, new)
-    ast.parse(src)  # the edited file must still be Python
+    tree = ast.parse(src)  # the edited file must still be Python
+    # a refactor that adds `logger.debug(...)` must be runnable: the module has to define `logger`
+    uses = any(isinstance(n, ast.Attribute) and isinstance(n.value, ast.Name) and n.value.id == "logger" for n in ast.walk(tree))
+    defines = any(isinstance(n, ast.Assign) and any(isinstance(t, ast.Name) and t.id == "logger" for t in n.targets)
+                  for n in tree.body)
+    if uses and not defines:
+        # the maintainer who adds logging to a module also adds the logger: insert the two usual lines before the first
+        # statement that is neither the module docstring nor a `from __future__` import
+        first = next((n for n in tree.body
+                      if not (isinstance(n, ast.Expr) and isinstance(n.value, ast.Constant))
+                      and not (isinstance(n, ast.ImportFrom) and n.module == "__future__")), None)
+        if first is None:
+            raise CaseError(f"{where}: the edited module uses `logger` but does not define it")
+        lines = src.splitlines(keepends=True)
+        at = first.lineno - 1
+        lines[at:at] = ["import logging\n", "\n", "logger = logging.getLogger(__name__)\n", "\n"]
+        src = "".join(lines)
+        ast.parse(src)
     return src
 
 
@@ -112,12 +133,14 @@ class Applied:
         files = dict(c.get("files", {}))
         if "file" in c:
             files[c["file"]] = c["edits"]
-        for rel, edits in files.items():
+        todo = {}
+        for rel, edits in files.items():        # compute every edited file first: a broken case changes nothing
             p = os.path.join(WT, rel)
             with open(p) as f:
                 src = f.read()
             self.saved[p] = src
-            new = apply_edits(src, edits, f"{c['id']} ({rel})")
+            todo[p] = apply_edits(src, edits, f"{c['id']} ({rel})")
+        for p, new in todo.items():
             with open(p, "w") as f:
                 f.write(new)
         return self
@@ -190,9 +213,12 @@ def main(argv):
         for c in cases:
             if emit and c["id"] != emit[0]:
                 continue
-            with Applied(c):
-                got = run_all(WT)
-            cls, detail = outcome(base, got)
+            try:
+                with Applied(c):
+                    got = run_all(WT)
+                cls, detail = outcome(base, got)
+            except CaseError as e:
+                got, cls, detail = {}, "BADCASE", [str(e)]
             if emit:
                 os.makedirs(emit[1], exist_ok=True)
                 for k, (st, name, content) in got.items():
@@ -206,7 +232,7 @@ def main(argv):
             else:
                 want = c.get("expect", "changed|refused")
                 ok = cls in want.split("|")
-            if cls == "crash":
+            if cls in ("crash", "BADCASE"):
                 ok = False
             rows.append((c, cls, detail, ok))
             if not ok:
